@@ -52,6 +52,11 @@ def configs(tier, seed):
             rnd.shuffle(order)
             out.append({"kind": "monitor", "trg": [TRG[i] for i in c], "order": order,
                         "montrg": TRG[rnd.randrange(3)]})
+    for n in ((9, 17) if tier == "quick" else (9, 17, 33)):
+        order = list(range(n))
+        rnd.shuffle(order)
+        out.append({"kind": "monitor", "trg": [TRG[rnd.randrange(3)] for _ in range(n)], "order": order,
+                    "montrg": TRG[rnd.randrange(3)]})
     for depth in (() if not _HAVE_EM else (3, 4, 5) if tier == "quick" else (3, 4, 5, 6)):
         out.append({"kind": "eventmap", "calls": depth})
     return out
